@@ -871,6 +871,11 @@ func runC09(r *Run) {
 			}
 		}
 	}
+	if only == "" || only == "expr-pairs" {
+		if r.Counter("unkeyed_probe_reports") < 500 {
+			r.Inconclusive("too few expression-pair cases whose probe at a place without workflow key (shell:) was reported")
+		}
+	}
 	if only == "" || only == "sibling-keys" {
 		if n := len(c09SibGroups()); r.SetLen("sibling_groups") < n {
 			r.Inconclusive("not every sibling-key mapping was exercised")
